@@ -402,31 +402,59 @@ class Inliner:
         ast.fix_missing_locations(new)
         return [new]
 
-    @staticmethod
-    def _comp_to_loop(s: ast.stmt, resolve) -> list[ast.stmt]:
-        """`x = [.. helper(..) .. for t in it]` (one generator, no filter) where the helper needs statement-level inlining
-        becomes `x = []` + an append loop, so that the helper's body can be inlined into the loop."""
-        if not (isinstance(s, ast.Assign) and len(s.targets) == 1 and isinstance(s.targets[0], ast.Name) and isinstance(s.value, ast.ListComp)
-                and len(s.value.generators) == 1 and not s.value.generators[0].ifs and not s.value.generators[0].is_async):
+    def _comp_to_loop(self, s: ast.stmt, resolve) -> list[ast.stmt]:
+        """`x = [.. helper(..) .. for t in it]` / `x = {k: helper(..) for t in it}` (one generator, no filter) where the helper needs
+        statement-level inlining becomes `x = []` + an append loop (`x = {}` + a store loop), so that the helper's body can be inlined
+        into the loop.  A comprehension that is the value of a return, or a direct argument of the call that is the statement's value
+        (`return pd.DataFrame(data={..})`), is first bound to a temporary."""
+        def needs_stmt_inline(comp) -> bool:
+            roots = [comp.elt] if isinstance(comp, ast.ListComp) else [comp.key, comp.value]
+            for r in roots:
+                for c in ast.walk(r):
+                    if isinstance(c, ast.Call):
+                        h, _ = resolve(c)
+                        if h is not None and Inliner._as_single_expression(_doc_stripped(h.body)) is None:
+                            return True
+            return False
+
+        def eligible(e) -> bool:
+            return isinstance(e, (ast.ListComp, ast.DictComp)) and len(e.generators) == 1 and not e.generators[0].ifs and not e.generators[0].is_async and needs_stmt_inline(e)
+
+        pre: list[ast.stmt] = []
+        val = getattr(s, "value", None) if isinstance(s, (ast.Assign, ast.Return, ast.Expr)) else None
+        if val is None:
             return [s]
-        needs = False
-        for c in ast.walk(s.value.elt):
-            if isinstance(c, ast.Call):
-                h, _ = resolve(c)
-                if h is not None:
-                    body = _doc_stripped(h.body)
-                    if Inliner._as_single_expression(body) is None:
-                        needs = True
-        if not needs:
-            return [s]
-        g = s.value.generators[0]
+        direct_assign = isinstance(s, ast.Assign) and len(s.targets) == 1 and isinstance(s.targets[0], ast.Name) and eligible(val)
+        if not direct_assign:
+            comp = None
+            if eligible(val):
+                comp = val
+            elif isinstance(val, ast.Call) and _is_simple(val.func):
+                operands = list(val.args) + [k.value for k in val.keywords]
+                cands = [a for a in operands if eligible(a)]
+                if len(cands) == 1 and all(a is cands[0] or _is_simple(a) for a in operands):
+                    comp = cands[0]
+            if comp is None:
+                return [s]
+            self.counter += 1
+            tmp = f"__h{self.counter}"
+            bind = ast.copy_location(ast.Assign(targets=[ast.Name(id=tmp, ctx=ast.Store())], value=comp), s)
+            _ReplaceNode(comp, ast.copy_location(ast.Name(id=tmp, ctx=ast.Load()), comp)).visit(s)
+            ast.fix_missing_locations(bind)
+            return self._comp_to_loop(bind, resolve) + [s]
+        comp = val
+        g = comp.generators[0]
         name = s.targets[0].id
-        init = ast.copy_location(ast.Assign(targets=[ast.Name(id=name, ctx=ast.Store())], value=ast.List(elts=[], ctx=ast.Load())), s)
-        app = ast.Expr(value=ast.Call(func=ast.Attribute(value=ast.Name(id=name, ctx=ast.Load()), attr="append", ctx=ast.Load()), args=[s.value.elt], keywords=[]))
-        loop = ast.copy_location(ast.For(target=g.target, iter=g.iter, body=[app], orelse=[]), s)
+        if isinstance(comp, ast.ListComp):
+            init = ast.copy_location(ast.Assign(targets=[ast.Name(id=name, ctx=ast.Store())], value=ast.List(elts=[], ctx=ast.Load())), s)
+            step: ast.stmt = ast.Expr(value=ast.Call(func=ast.Attribute(value=ast.Name(id=name, ctx=ast.Load()), attr="append", ctx=ast.Load()), args=[comp.elt], keywords=[]))
+        else:
+            init = ast.copy_location(ast.Assign(targets=[ast.Name(id=name, ctx=ast.Store())], value=ast.Dict(keys=[], values=[])), s)
+            step = ast.Assign(targets=[ast.Subscript(value=ast.Name(id=name, ctx=ast.Load()), slice=comp.key, ctx=ast.Store())], value=comp.value)
+        loop = ast.copy_location(ast.For(target=g.target, iter=g.iter, body=[step], orelse=[]), s)
         ast.fix_missing_locations(init)
         ast.fix_missing_locations(loop)
-        return [init, loop]
+        return pre + [init, loop]
 
     @staticmethod
     def _hoistable(root: ast.AST, resolve) -> ast.Call | None:
